@@ -181,7 +181,6 @@ func VerifC19RecvPacket() {
 	t1 := sdkmath.NewIntFromBigInt(tok.BalanceOf(verifContract, aHex))
 	if err != nil {
 		rt.Cover("refused")
-		rt.Assert(rt.Or(receiver != aHex.Hex(), badAmount), "a transfer of a registered token to a hex account is not refused")
 		rt.Assert(ms.Equal(before), "a refused packet moves nothing")
 		return
 	}
